@@ -80,8 +80,10 @@ impl<'g> Sampler<'g> {
     pub fn productive(&self, rule: usize) -> bool {
         self.min_rule[rule].is_some()
     }
-    fn derive(&self, r: &Regex, d: &mut Dice<'_>, depth: usize, cap: usize, out: &mut Vec<usize>) {
-        let minimal = depth == 0 || out.len() >= cap;
+    fn derive(&self, r: &Regex, d: &mut Dice<'_>, depth: usize, cap: usize, out: &mut Vec<usize>, budget: &mut usize) {
+        // a step budget bounds derivations that branch a lot without producing tokens
+        *budget = budget.saturating_sub(1);
+        let minimal = depth == 0 || out.len() >= cap || *budget == 0;
         match r {
             Regex::Tok(t, _) => out.push(*t),
             Regex::Ref(x) => {
@@ -90,10 +92,10 @@ impl<'g> Sampler<'g> {
                     return;
                 }
                 if let Some(b) = &self.g.rules[*x].body {
-                    self.derive(b, d, depth.saturating_sub(1), cap, out)
+                    self.derive(b, d, depth.saturating_sub(1), cap, out, budget)
                 }
             }
-            Regex::Concat(v) => v.iter().for_each(|c| self.derive(c, d, depth, cap, out)),
+            Regex::Concat(v) => v.iter().for_each(|c| self.derive(c, d, depth, cap, out, budget)),
             Regex::Alt(v) | Regex::Choice(v) => {
                 let prod: Vec<&Regex> = v.iter().filter(|c| min_len(c, &self.min_rule).is_some()).collect();
                 if prod.is_empty() {
@@ -104,28 +106,28 @@ impl<'g> Sampler<'g> {
                 } else {
                     prod[d.below(prod.len())]
                 };
-                self.derive(pick, d, depth, cap, out)
+                self.derive(pick, d, depth, cap, out, budget)
             }
             Regex::Opt(b) => {
                 if !minimal && d.chance(1, 2) && min_len(b, &self.min_rule).is_some() {
-                    self.derive(b, d, depth, cap, out)
+                    self.derive(b, d, depth, cap, out, budget)
                 }
             }
             Regex::Star(b) => {
                 if !minimal && min_len(b, &self.min_rule).is_some() {
                     let n = d.below(4);
                     for _ in 0..n {
-                        self.derive(b, d, depth.saturating_sub(1), cap, out)
+                        self.derive(b, d, depth.saturating_sub(1), cap, out, budget)
                     }
                 }
             }
             Regex::Plus(b) => {
                 let n = if minimal { 1 } else { 1 + d.below(3) };
                 for _ in 0..n {
-                    self.derive(b, d, depth.saturating_sub(1), cap, out)
+                    self.derive(b, d, depth.saturating_sub(1), cap, out, budget)
                 }
             }
-            Regex::Paren(Some(b)) => self.derive(b, d, depth, cap, out),
+            Regex::Paren(Some(b)) => self.derive(b, d, depth, cap, out, budget),
             _ => {}
         }
     }
@@ -133,7 +135,8 @@ impl<'g> Sampler<'g> {
     pub fn sentence(&self, rule: usize, d: &mut Dice<'_>, depth: usize, cap: usize) -> Vec<usize> {
         let mut out = vec![];
         if let Some(b) = &self.g.rules[rule].body {
-            self.derive(b, d, depth, cap, &mut out);
+            let mut budget = 4000usize;
+            self.derive(b, d, depth, cap, &mut out, &mut budget);
         }
         out
     }
@@ -234,11 +237,14 @@ pub fn standard_inputs(g: &Grammar, s: &Sampler<'_>, rule: usize, d: &mut Dice<'
         match d.below(10) {
             0..=2 => {
                 let depth = 2 + d.below(6);
-                let sen = s.sentence(rule, d, depth, max_len);
+                let mut sen = s.sentence(rule, d, depth, max_len);
                 if sen.len() <= max_len * 2 {
                     sentences.push(sen.clone());
-                    out.push(sen);
+                } else {
+                    // too long to be useful as a sentence: keep a prefix as an ordinary input
+                    sen.truncate(max_len * 2);
                 }
+                out.push(sen);
             }
             3..=5 => {
                 let base = if sentences.is_empty() { s.sentence(rule, d, 4, max_len) } else { sentences[d.below(sentences.len())].clone() };
